@@ -199,6 +199,7 @@ package cluster
 //@   requires c.cfg.RpcRetries >= 1
 //@   safety -overflow
 //@   before RemoveAll requires checksum == rpcResp.Checksum && rpcResp.BytesWritten == n
+//@   before RemoveAll requires arg0 == callres(Dir, 4, 0) && callarg(Dir, 4, 0) == path
 //@   ensures result == nil ==> ncalls(RemoveAll) == 1
 //@   ensures ncalls(RemoveAll) <= 1
 //@   loop 1 invariant c.cfg.RpcRetries >= 1
